@@ -93,6 +93,52 @@ def build(tier, work, builder):
         if not re.match(r"^\{ utap__scan_string\(str\); int32_t res = (parse_XTA\(builder, newxta, part, xpath\)|parseProperty\(aParserBuilder, xpath\)); utap__delete_buffer\(YY_CURRENT_BUFFER\); return res; \}$", b):
             raise X.ExtractionBroken("public parse wrapper is no longer `scan_string; static entry; delete_buffer; return`: " + b[:200])
         slices.append(w)
+    # ---- the grammar actions that use the process-global array-dimension counter `types`: replayed as bison runs them
+    r1, a1 = X.yacc_rule(py, "ArrayDecl")
+    r2, a2 = X.yacc_rule(py, "ArrayDecl2")
+    slices += [r1, r2]
+
+    def lower_action(a):
+        a = re.sub(r"CALL\(\s*@\d+\s*,\s*@\d+\s*,", "VERIF_CALL(", a)
+        if "$" in a or "@" in a:
+            raise X.ExtractionBroken("ArrayDecl action uses semantic values/locations the replayer does not model: " + a[:80])
+        return a
+    gen = ["/* GENERATED from the rules ArrayDecl / ArrayDecl2 of src/parser.y: the action blocks are the REAL text, in the order",
+           "   bison executes them (mid-rule actions before the symbols that follow, end actions after the last symbol) */",
+           "static void nt_ArrayDecl2(int depth);", "static void nt_ArrayDecl(void)\n{"]
+    if len(a1) != 1:
+        raise X.ExtractionBroken("rule ArrayDecl: expected a single alternative")
+    for kind, txt in a1[0]:
+        if kind == "act":
+            gen.append("    " + lower_action(txt))
+        elif kind == "sym" and txt == "ArrayDecl2":
+            gen.append("    nt_ArrayDecl2(0);")
+        elif kind == "sym":
+            raise X.ExtractionBroken("rule ArrayDecl: unexpected symbol " + txt)
+    gen.append("}\nstatic void nt_ArrayDecl2(int depth)\n{\n    int alt = depth < MAXDIM ? verif_choice[depth] : 0;")
+    empty_seen = False
+    for k, alt in enumerate(a2):
+        if not alt:
+            empty_seen = True
+            gen.append(f"    if (alt == {k}) return; /* empty */")
+            continue
+        gen.append(f"    if (alt == {k}) {{")
+        for kind, txt in alt:
+            if kind == "act":
+                gen.append("        " + lower_action(txt))
+            elif kind == "sym" and txt == "ArrayDecl2":
+                gen.append("        nt_ArrayDecl2(depth + 1);")
+            elif kind == "sym" and txt in ("Expression", "Type", "error") or txt.startswith("'"):
+                gen.append(f"        /* {txt}: does not touch the counter (assumption: no array declarator nested in a dimension) */")
+            elif kind == "sym":
+                raise X.ExtractionBroken("rule ArrayDecl2: unexpected symbol " + txt)
+        gen.append("        return;\n    }")
+    gen.append("}")
+    if not empty_seen:
+        raise X.ExtractionBroken("rule ArrayDecl2: no empty alternative")
+    gen.append(f"#define N_ALT {len(a2)}\n#define EMPTY_ALT {[i for i, a in enumerate(a2) if not a][0]}")
+    write(work, "array_decl_actions.inc", "\n".join(gen) + "\n")
+    aobj = builder.cc(os.path.join(CDIR, "arr15.c"), includes=[work])
     obj = builder.cc(os.path.join(CDIR, "ps15.cpp"), includes=[work, os.path.join(X.REPO, "include")], cpp=True)
     kf = ["KF1_CLASS(h)=((h).position == 0xffffffffu)"]
     hobj = builder.cc(os.path.join(CDIR, "h_c15.c"), includes=[work], defines=["EXCLUDE_KF"] + kf)
@@ -105,6 +151,8 @@ def build(tier, work, builder):
     J("c15_entry_xta", "h_c15_entry_xta", ["static parse_XTA(ParserBuilder*, bool, xta_part_t, std::string)", "setStartToken", "PositionTracker::setPath"])
     J("c15_entry_property", "h_c15_entry_property", ["static parseProperty(ParserBuilder*, const std::string&)", "setStartToken", "PositionTracker::setPath"])
     J("c15_lex", "h_c15_lex", ["utap_lex"])
+    jobs.append(F.Job("c15_array_counter", "h_c15_array_counter", [aobj], timeout=300, unwind=12,
+                      functions=["parser.y rules ArrayDecl / ArrayDecl2 (actions on the global counter `types`)"], bound_note="array declarators of <= 4 dimensions"))
     J("c15_position_wrap", "h_c15_position_wrap", ["PositionTracker::setPath (counter monotonicity across calls)"], note="run with the known-finding class excluded: must pass")
     J("c15_kf1_position_wrap", "h_c15_position_wrap", ["PositionTracker::setPath (counter monotonicity across calls)"], obj2=hobj_kf,
       known={r"position-counter-stays-monotone": "C15-KF1"}, note="unrestricted: fails exactly inside the known-finding class")
@@ -114,7 +162,7 @@ def build(tier, work, builder):
                   "std::string xpath is an identity; MAXLEN shortened (only rootTransId[0] is observed)"],
         "trusted_base": ["CBMC 6.11 C++ front end + SAT", "token ids generated from the %token list (distinct, as bison assigns them)", "stubs in contracts/C15/ps15.cpp"],
         "assumptions": ["flex state (YY_START, buffer stack) and bison's own state are not under contract: an exception thrown while the scanner is inside a comment leaves YY_START in the comment condition for the next call",
-                        "rootTransId and types are not re-initialised by the prologues; the grammar re-initialises `types` before use and writes rootTransId before the first use in a transition list (not under contract: grammar actions)",
+                        "rootTransId is not re-initialised by the prologues; the grammar writes it before the first use in a transition list (not under contract: grammar actions); the counter `types` is covered by c15_array_counter (actions of ArrayDecl/ArrayDecl2 replayed in bison's order; dimensions are assumed not to nest another array declarator)",
                         "the public wrappers are checked textually to be scan_string / static entry / delete_buffer only",
                         "everything after the prologue (the parse itself) is outside this kernel: the whole-history statement is NOT decided"],
         "explanation": "",
